@@ -492,8 +492,24 @@ def compile_link(res, seeds):
     d = tempfile.mkdtemp(prefix='c25g_')
     try:
         files = build_set(res)
+        # written files, plus the untouched originals they need (transitively) for a module or an external routine
+        chosen = {n: t for n, t in files.items() if not n.startswith('orig:')}
+        pool = {n: t for n, t in files.items() if n.startswith('orig:')}
+        while True:
+            have = [x for t in chosen.values() for x in scan(t)[0]]
+            hm = {x[2] for x in have if x[0] == 'module'}
+            hf = {x[2] for x in have if x[0] == 'subroutine' and not x[1]}
+            want = [r for t in chosen.values() for r in scan(t)[1]]
+            add = [n for n, t in pool.items() if any(
+                (d[0] == 'module' and d[2] not in hm and any(r[1] == 'use' and r[3] == d[2] for r in want)) or
+                (d[0] == 'subroutine' and not d[1] and d[2] not in hf and any(r[1] == 'call' and r[3] == d[2] for r in want))
+                for d in scan(t)[0])]
+            if not add:
+                break
+            for n in add:
+                chosen[n] = pool.pop(n)
         texts = {}
-        for n, txt in files.items():
+        for n, txt in chosen.items():
             texts[n.replace('orig:', 'o_')] = txt
         # main program: calls every seed that still exists under its name
         alld = [x for t in texts.values() for x in scan(t)[0]]
@@ -516,6 +532,21 @@ def compile_link(res, seeds):
         # order by module dependencies
         provides = {n: {x[2] for x in scan(t)[0] if x[0] == 'module'} for n, t in texts.items()}
         needs = {n: {r[3] for r in scan(t)[1] if r[1] == 'use'} for n, t in texts.items()}
+        hdr = res.get('hdrtext', {})
+
+        def hdr_uses(name, seen):       # modules used by the interface blocks of (transitively) included headers
+            if name in seen:
+                return set()
+            seen.add(name)
+            h = hdr.get(name + '.intfb.h', '')
+            out = {m.lower() for m in re.findall(r'^\s*use\s+(\w+)', h, re.I | re.M)}
+            for inc in re.findall(r'^\s*#include\s+"(\w+)\.intfb\.h"', h, re.I | re.M):
+                out |= hdr_uses(inc.lower(), seen)
+            return out
+        for n, t in texts.items():
+            for r in scan(t)[1]:
+                if r[1] == 'inc':
+                    needs[n] |= hdr_uses(r[3], set())
         order, done, pending = [], set(), sorted(n for n in texts if n != 'zz_main.F90')
         while pending:
             progress = False
@@ -685,6 +716,9 @@ def classify(proj, cfg, ops, plan):
     inactive = any(kind == 'mod' and len(rs) > 1 and (any(f'r{i}' not in reach for i in rs) or 'rem' in kinds)
                    and any(f'r{i}' in reach for i in rs) for _, kind, _, rs in proj['units'])
     if not plan and inactive and any(k == 'wrap' and 'dep' not in kinds[i + 1:] for i, k in enumerate(kinds)):
+        cls.append('inactive-sibling')
+    if not plan and any(o[0] == 'dup' and home.get(o[1]) is not None and any(
+            home[r['name']] == home[o[1]] and o[1] in r['calls'] for r in proj['routines']) for o in ops):
         cls.append('inactive-sibling')
     for i, o in enumerate(ops):
         if o[0] == 'dup' and home.get(o[1]) is None and 'wrap' in kinds[i + 1:] and not plan:
